@@ -67,7 +67,7 @@ class FitYamlWriter(YamlWriterMixin, FitDReprBase):
             if _gof is not None:
                 _preface_comment += "# %s/ndf: %s\n\n" % (
                     _gof_name,
-                    round(_gof / _ndf, _round_gof_per_ndf_sig),
+                    round(float(_gof / _ndf), _round_gof_per_ndf_sig),
                 )
 
             # If asymmetric parameters errors were not calculated, check the loaded result dict
